@@ -19,7 +19,8 @@ RULE = ("the whole decision table, enumerated: probed method in {m0: real fn onl
         "in strict mocks too); the probed method's own pattern expects exactly one match so that a wrongly counted fall-through "
         "changes the verification text; distinct = canonical JSON; non-trivial = the probed call has no applicable pattern")
 
-SITUATIONS = ["unmentioned", "unmatched", "matched", "ordered_unmatched"]
+# zero_unmatched: the method IS mentioned, but only by patterns quantified exactly 0 times (which also reject the argument)
+SITUATIONS = ["unmentioned", "unmatched", "matched", "ordered_unmatched", "zero_unmatched"]
 
 
 def make_case(mid, partial, sit, arg, pos, final, k, via="orig"):
@@ -31,6 +32,11 @@ def make_case(mid, partial, sit, arg, pos, final, k, via="orig"):
     resp = [("ret", 7), ("n", 1)] if clone_ok else [("ans", 7), ("n", 1)]
     if sit == "unmatched":
         terms.insert(k % 2, {"kind": "call", "mid": mid, "opener": "each", "pat": {"matcher": rej, "dbg": 2, "ops": resp}})
+    elif sit == "zero_unmatched":
+        zresp = [resp[0], ("n", 0)]
+        terms.insert(k % 2, {"kind": "call", "mid": mid, "opener": "each", "pat": {"matcher": rej, "dbg": 2, "ops": zresp}})
+        if k % 3 == 0:
+            terms.append({"kind": "call", "mid": mid, "opener": "some", "pat": {"matcher": rej & 0x0f, "dbg": 3, "ops": zresp}})
     elif sit == "matched":
         terms.insert(k % 2, {"kind": "call", "mid": mid, "opener": "each", "pat": {"matcher": 1 << arg, "dbg": 2, "ops": resp}})
     elif sit == "ordered_unmatched":
